@@ -19,8 +19,8 @@ import (
 //
 // Suites: sasl.b64enc / sasl.b64dec (Lib/Base64.v vs encoding/base64), sasl.plain /
 // sasl.external (the two Encode methods), sasl.session (connected: registration,
-// CAP LS/ACK, AUTHENTICATE, 900-908, OPER; wire lines, Connect's result, log
-// hygiene), sasl.log (the Sensitive/Echo gates of debugLogEvent, RunHandlers and
+// CAP LS/ACK, AUTHENTICATE, 900-908, OPER; mechanisms PLAIN, EXTERNAL, fixed response,
+// stateful sequence of responses; wire lines, Connect's result, log hygiene), sasl.log (the Sensitive/Echo gates of debugLogEvent, RunHandlers and
 // Pretty on arbitrary events).
 
 const b64Alphabet = "ABCDEFGHIJKLMNOPQRSTUVWXYZabcdefghijklmnopqrstuvwxyz0123456789+/"
@@ -129,6 +129,24 @@ type fixedMech struct{ method, resp string }
 func (m *fixedMech) Method() string         { return m.method }
 func (m *fixedMech) Encode([]string) string { return m.resp }
 
+// seqMech keeps state between calls, as challenge-response mechanisms do: the k-th call
+// of Encode returns the k-th response, "" (give up) once they are used up.
+type seqMech struct {
+	method string
+	resps  []string
+	calls  int
+}
+
+func (m *seqMech) Method() string { return m.method }
+func (m *seqMech) Encode([]string) string {
+	r := ""
+	if m.calls < len(m.resps) {
+		r = m.resps[m.calls]
+	}
+	m.calls++
+	return r
+}
+
 var reDebugLine = regexp.MustCompile(`(?m)^debug:\d\d:\d\d:\d\d \S+:\d+: (.*)$`)
 
 func debugMessages(text string) []string {
@@ -163,11 +181,11 @@ func isBarrier(l string) bool { return strings.HasPrefix(l, "PONG vb") }
 func barrier(s *drive.Session, k int) (returned bool, err error, ok bool) {
 	tag := fmt.Sprintf("vb%d", k)
 	go func() {
-		_ = s.Peer.SetWriteDeadline(time.Now().Add(3 * time.Second))
+		_ = s.Peer.SetWriteDeadline(time.Now().Add(20 * time.Second))
 		_, _ = s.Peer.Write([]byte("PING :" + tag + "\r\n"))
 	}()
 	want := "PONG " + tag + "\r\n"
-	deadline := time.Now().Add(6 * time.Second)
+	deadline := time.Now().Add(30 * time.Second)
 	for {
 		select {
 		case err := <-s.Done:
@@ -235,6 +253,19 @@ func runSession(c Case) Result {
 		mech = &fixedMech{a1, a2}
 		expect = func(params []string) string { return a2 }
 		secrets = append(secrets, a2)
+	case "S":
+		resps := strings.Split(a2, ",")
+		mech = &seqMech{method: a1, resps: resps}
+		asked := 0 // the oracle keeps its own count of challenges
+		expect = func(params []string) string {
+			r := ""
+			if asked < len(resps) {
+				r = resps[asked]
+			}
+			asked++
+			return r
+		}
+		secrets = append(secrets, resps...)
 	}
 	if mech != nil {
 		cfg.SASL = mech
@@ -428,6 +459,7 @@ func numericStep(n string) string {
 
 func genSessionCase(r *rand.Rand) Case {
 	var kind, a1, a2 string
+	extraChallenges := 0
 	switch x := r.Intn(100); {
 	case x < 40:
 		kind = "P"
@@ -444,7 +476,7 @@ func genSessionCase(r *rand.Rand) Case {
 			}
 			a1 = RandBytes(r, n, b64Alphabet)
 		}
-	case x < 90:
+	case x < 78:
 		kind = "C"
 		a1 = Pick(r, "XMECH", "SCRAM-SHA-256", "ANONYMOUS", "ECDSA-NIST256P-CHALLENGE")
 		n := saslTargets[r.Intn(len(saslTargets))]
@@ -452,6 +484,24 @@ func genSessionCase(r *rand.Rand) Case {
 			n = r.Intn(2500)
 		}
 		a2 = RandBytes(r, n, b64Alphabet)
+	case x < 92:
+		kind = "S"
+		a1 = Pick(r, "SCRAM-SHA-256", "XSTATEFUL", "ECDSA-NIST256P-CHALLENGE")
+		var rs []string
+		for i, k := 0, 1+r.Intn(3); i < k; i++ {
+			n := saslTargets[1+r.Intn(len(saslTargets)-1)]
+			switch r.Intn(6) {
+			case 0:
+				n = 1 + r.Intn(900)
+			case 1:
+				if i > 0 {
+					n = 0 // gives up in the middle of the exchange
+				}
+			}
+			rs = append(rs, RandBytes(r, n, b64Alphabet))
+		}
+		a2 = strings.Join(rs, ",")
+		extraChallenges = r.Intn(4)
 	default:
 		kind = "N"
 	}
@@ -492,6 +542,9 @@ func genSessionCase(r *rand.Rand) Case {
 		if r.Intn(8) > 0 {
 			steps = append(steps, challenge())
 		}
+		for i := 0; i < extraChallenges; i++ {
+			steps = append(steps, stepLine("AUTHENTICATE", RandBytes(r, 4*(1+r.Intn(6)), b64Alphabet)))
+		}
 	}
 	for i, n := 0, r.Intn(4); i < n; i++ {
 		steps = append(steps, alphabet())
@@ -529,6 +582,15 @@ func fixedSessionCases() []Case {
 		out = append(out, Case{"N", "", "", "", "", "operuser", randSecret(r), ls, ack, plus, numericStep(fmt.Sprintf("90%d", d))})
 	}
 	out = append(out, Case{"E", "", "", "", "", "operuser", randSecret(r), ls, ack, plus, numericStep("903")})
+	// stateful mechanisms: several rounds, boundary lengths in any round, giving up late
+	ch := stepLine("AUTHENTICATE", "Y2hhbGxlbmdl")
+	rb := func(n int) string { return RandBytes(r, n, b64Alphabet) }
+	out = append(out,
+		Case{"S", "SCRAM-SHA-256", rb(60) + "," + rb(88) + "," + "+", randSecret(r), "", "operuser", randSecret(r), ls, ack, plus, ch, ch, numericStep("903")},
+		Case{"S", "XSTATEFUL", rb(400) + "," + rb(401), "", "", "operuser", randSecret(r), ls, ack, plus, ch, numericStep("900"), numericStep("903")},
+		Case{"S", "XSTATEFUL", rb(16) + "," + rb(800), "", "", "operuser", randSecret(r), ls, ack, plus, ch, ch, numericStep("903")},
+		Case{"S", "XSTATEFUL", rb(16) + ",," + rb(16), "", "", "operuser", randSecret(r), ls, ack, plus, ch, ch, numericStep("903")},
+		Case{"S", "XSTATEFUL", rb(399), "", "", "operuser", randSecret(r), ls, ack, plus, numericStep("904"), ch})
 	return out
 }
 
